@@ -40,8 +40,10 @@ pub struct SimkCase {
     pub string_variant: bool,
     /// the child terminates on its own (no Flood / endless silence)
     pub finite: bool,
-    /// as Exec::capture does: after the exchange the parent waits for the child
-    /// while the Communicator (and whatever it still holds) is alive
+    /// an unlimited read() that returned Ok has completed the exchange (all output
+    /// at EOF, all input delivered, stdin closed): the child must be able to reach its
+    /// end with the parent's pipe ends exactly as they are at that moment - the caller
+    /// may well wait for it before dropping the Communicator
     #[serde(default)]
     pub wait_before_drop: bool,
 }
@@ -299,10 +301,10 @@ pub fn run_simk(case: &SimkCase) -> Outcome {
                 break;
             }
         }
-        if case.wait_before_drop && finished && finite {
+        if case.wait_before_drop && finished && finite && specs.iter().all(|r| r.size.is_none()) {
             let sim = unsafe { &mut *simp };
             if sim.verdict.is_none() && sim.wait_child() == Some(false) {
-                sim.verdict = Some(Verdict::Deadlock(format!("parent blocked in waitpid() after the exchange (the Communicator is still alive, as in capture()) while child is {:?} at script op {}", sim.cstate, sim.pc)));
+                sim.verdict = Some(Verdict::Deadlock(format!("read() returned Ok, yet a waitpid() issued before the Communicator is dropped would never return: child is {:?} at script op {}", sim.cstate, sim.pc)));
             }
         }
         drop(comm);
@@ -1152,6 +1154,12 @@ fn worker_for(focus: Focus, ctx: &Ctx) {
         Focus::C04 => "C04",
     };
     crate::props::realcomm::run_real_tier(ctx, prop, ctx.tier.pick(120, 1500));
+    if focus == Focus::C01 {
+        // termination only, through every front end (capture() included: what it does
+        // around the exchange - waiting, dropping - is part of "always finishes"), with
+        // children that close any of their streams at any point
+        crate::props::realcomm::run_term_tier(ctx, ctx.tier.pick(150, 2500));
+    }
 }
 
 fn replay_for(focus: Focus, ctx: &Ctx, engine: &str, case: &Value) -> CaseResult {
@@ -1163,6 +1171,9 @@ fn replay_for(focus: Focus, ctx: &Ctx, engine: &str, case: &Value) -> CaseResult
             Focus::C03 => "C03",
             Focus::C04 => "C04",
         };
+        if case.get("ops").and_then(|o| o.as_array()).map(|a| a.iter().any(|x| x.get("Close").is_some() || x.get("ReadSome").is_some())).unwrap_or(false) || case.get("limits").is_none() {
+            return crate::props::realcomm::replay_term(ctx, case);
+        }
         return crate::props::realcomm::replay(ctx, prop, case);
     }
     let c: SimkCase = serde_json::from_value(case.clone()).map_err(|e| Fail::new("bad-replay-file", e.to_string()))?;
